@@ -12,7 +12,7 @@ def check(ctx, rep):
         "gathered from *all* done tasks. R03.3 every main wait is re-armed with deadline - now. R03.4 cycles "
         "raise instead of looping (topological scan makes progress or raises). R03.6 (= R07.3) every activation "
         "starts its jobs through a window it built itself: a nested scheduler that queues its jobs on the window "
-        "in which it holds a slot itself wedges a window of 1.")
+        "in which it holds a slot itself wedges a window of 1. R03.7 the default of `shutdown_timeout` is a positive bound in every scheduler constructor.")
     rep.declined = ["termination of run() for all schedules (liveness): not a shape of the code"]
     rep.trusted = ["T1", "T3", "T4 asyncio.Queue FIFO wake-up"]
     common.wrap_exits(ctx, rep, "R03.1",
@@ -22,3 +22,4 @@ def check(ctx, rep):
     runrules.deadline(ctx, rep, "R03.3", "R03.3")
     common.wrap_typestate(ctx, rep, "R03.5")
     common.window_scope(ctx, rep, "R03.6")
+    predicates.shutdown_bounded_by_default(ctx, rep, "R03.7")
